@@ -15,6 +15,7 @@ for s in st["units"]:
     for cfg in s.configs():
         if cfgs not in s.cfg_label(cfg):
             continue
+        eng = runner.engine_for(st, s)[0]
         obs, d = eng.verify_cfg(s, cfg)
         print("==", s.target, s.cfg_label(cfg), "paths", d["paths"], "oos", d["oos"])
         for cx in d["cxs"]:
